@@ -51,6 +51,11 @@ type CacheHistCase struct {
 	ExpiryS   int      `json:"expiry_s"` // expiry age of the store (0 = none); handles taken by this history pin their secrets
 	FailRead  bool     `json:"fail_read"`
 	FailWrite []int    `json:"fail_write"` // write calls (1-based) that fail
+	// FileAgeDays >= 0 (with FromFile): the second store is started from a real FileCache whose file was
+	// last written that many days ago - a process that ran for months without a rotation and then
+	// crashed restarts from exactly such a file; the property sets no age limit
+	FromFile    bool `json:"from_file,omitempty"`
+	FileAgeDays int  `json:"file_age_days,omitempty"`
 }
 
 var c13Names = []string{"d1", "d2", "u1", "u2", "empty"}
@@ -157,7 +162,27 @@ func runC13Hist(t *testing.T, c CacheHistCase) (*h.Violation, h.Info) {
 			dead := fake.NewSvc()
 			// (bounded: a store that wrongly decides it must fetch something would retry for ever)
 			bctx, bcancel := context.WithTimeout(context.Background(), 1500*time.Millisecond)
-			st2, err := setec.NewStore(bctx, setec.StoreConfig{Client: dead, Secrets: append([]string{}, declared...), AllowLookup: true, Cache: fake.NewCache(data), PollInterval: -1, Logf: nolog})
+			var cache2 setec.Cache = fake.NewCache(data)
+			if c.FromFile {
+				p := filepath.Join(dir, "restart", "cache.json")
+				fc, err := setec.NewFileCache(p)
+				if err != nil {
+					bcancel()
+					return h.V("harness", "NewFileCache: %v", err)
+				}
+				if err := fc.Write(data); err != nil {
+					bcancel()
+					return h.V("harness", "FileCache.Write: %v", err)
+				}
+				old := time.Now().Add(-time.Duration(c.FileAgeDays) * 24 * time.Hour)
+				os.Chtimes(p, old, old)
+				cache2 = fc
+				info.Class("second-store-starts-from-a-real-cache-file")
+				if c.FileAgeDays > 30 {
+					info.Class("cache-file-last-written-more-than-a-month-ago")
+				}
+			}
+			st2, err := setec.NewStore(bctx, setec.StoreConfig{Client: dead, Secrets: append([]string{}, declared...), AllowLookup: true, Cache: cache2, PollInterval: -1, Logf: nolog})
 			bcancel()
 			if err != nil {
 				return h.V("restart-from-cache-without-service", "step %d %s: a store started from the cache with the service unreachable failed: %v (cache: %q)", step, what, err, data)
@@ -388,7 +413,7 @@ func runC13Hist(t *testing.T, c CacheHistCase) (*h.Violation, h.Info) {
 
 var c13hist = &h.Campaign[CacheHistCase]{
 	Prop: "C13", Sub: "history",
-	Rule:  "rapid: store histories (initial fetch, lookups, service changes + polls through the store's own poller, reads, clock advances, Close + restart from the cache) with a recording cache; every document written is decoded strictly, compared with the model (every known secret, latest version/bytes, current last-access stamp), fed to a second store whose service is unreachable and to NewFileClient; writes are demanded at initial fetch, after an installing poll, after a lookup and when the poller stops; in a quarter of the cases Cache.Read or generated Cache.Write calls fail and the store must keep serving; non-trivial = a restart that follows a lookup/read, or injected cache faults; distinct by scenario",
+	Rule:  "rapid: store histories (initial fetch, lookups, service changes + polls through the store's own poller, reads, clock advances, Close + restart from the cache) with a recording cache; every document written is decoded strictly, compared with the model (every known secret, latest version/bytes, current last-access stamp), fed to a second store whose service is unreachable and to NewFileClient; writes are demanded at initial fetch, after an installing poll, after a lookup and when the poller stops; in a quarter of the cases Cache.Read or generated Cache.Write calls fail and the store must keep serving; in a quarter of the cases the second store starts from a real FileCache whose file was last written 0-4000 days ago; non-trivial = a restart that follows a lookup/read, or injected cache faults; distinct by scenario",
 	Quick: 1500, Thorough: 400000,
 	Gen: func(rt *rapid.T) CacheHistCase {
 		c := CacheHistCase{Declared: rapid.SampledFrom([][]string{{"d1"}, {"d1", "d2"}, {"d1", "empty"}}).Draw(rt, "declared")}
@@ -403,6 +428,9 @@ var c13hist = &h.Campaign[CacheHistCase]{
 			return o
 		}), h.LenBias(rt, 1, 25), 25).Draw(rt, "ops")
 		c.ExpiryS = rapid.SampledFrom([]int{0, 0, 10}).Draw(rt, "expiry")
+		if rapid.IntRange(0, 3).Draw(rt, "fromfile") == 0 {
+			c.FromFile, c.FileAgeDays = true, rapid.SampledFrom([]int{0, 1, 29, 31, 366, 4000}).Draw(rt, "fileage")
+		}
 		if rapid.IntRange(0, 3).Draw(rt, "faulty") == 0 {
 			c.FailRead = rapid.Bool().Draw(rt, "failread")
 			c.FailWrite = rapid.SliceOfN(rapid.IntRange(1, 12), 0, 4).Draw(rt, "failwrite")
